@@ -8,6 +8,7 @@ import (
 	"fmt"
 	"sort"
 	"strings"
+	"time"
 
 	"github.com/cinar/indicator/v2/verifmc/mc"
 )
@@ -97,6 +98,7 @@ type Opts struct {
 	MaxExec   int // cap on executions (0 = 200000)
 	MaxEvents int
 	Sites     bool
+	Budget    time.Duration // wall-clock budget for one exploration (0 = none); exceeding it ends the exploration with Exhaustive=false
 }
 
 type runOut struct {
@@ -205,11 +207,17 @@ func DelayBounded(sc Scenario, d int, o Opts) *Stats {
 	if o.MaxExec == 0 {
 		o.MaxExec = 200000
 	}
+	t0 := time.Now()
 	var rec func(prefix []int, devs int)
 	rec = func(prefix []int, devs int) {
 		if st.Executions >= o.MaxExec {
 			st.Exhaustive = false
 			st.CapHit = "executions"
+			return
+		}
+		if o.Budget > 0 && time.Since(t0) > o.Budget {
+			st.Exhaustive = false
+			st.CapHit = "time budget"
 			return
 		}
 		r := runPrefix(sc, prefix, o, false)
@@ -261,9 +269,17 @@ func depOps(ak mc.OpKind, aobj, aarg int, bk mc.OpKind, bobj, barg int) bool {
 	case ak == mc.OpRecv && bk == mc.OpRecv:
 		return true
 	case isMu(ak) && isMu(bk):
-		// reader-side operations commute with each other; anything involving the writer side conflicts
-		rd := func(k mc.OpKind) bool { return k == mc.OpRLock || k == mc.OpRUnlock }
-		return !(rd(ak) && rd(bk))
+		// Only the order of acquisitions matters: two acquisitions conflict unless both are read locks.
+		// An unlock commutes with a blocking acquisition (lock-blocks; unlock-wakes; retry == unlock; lock),
+		// exactly as send/recv do on a channel; only TryLock (Arg 1) observes whether the unlock happened.
+		acq := func(k mc.OpKind) bool { return k == mc.OpLock || k == mc.OpRLock }
+		if acq(ak) && acq(bk) {
+			return !(ak == mc.OpRLock && bk == mc.OpRLock)
+		}
+		if (ak == mc.OpLock && aarg == 1 && !acq(bk)) || (bk == mc.OpLock && barg == 1 && !acq(ak)) {
+			return true
+		}
+		return false
 	case ak == mc.OpOnce && bk == mc.OpOnce:
 		return true
 	case ak == mc.OpAtomic && bk == mc.OpAtomic:
@@ -290,10 +306,16 @@ func DPOR(sc Scenario, o Opts) *Stats {
 		o.MaxExec = 200000
 	}
 	var stack []*node
+	t0 := time.Now()
 	for {
-		if st.Executions >= o.MaxExec {
+		if st.Executions >= o.MaxExec || st.SleepBlocked >= 8*o.MaxExec {
 			st.Exhaustive = false
 			st.CapHit = "executions"
+			break
+		}
+		if o.Budget > 0 && time.Since(t0) > o.Budget {
+			st.Exhaustive = false
+			st.CapHit = "time budget"
 			break
 		}
 		ex := sc()
